@@ -48,7 +48,7 @@ def main():
             extra = more.split(",")
         wt = MUT / pid
         sh("git checkout -q -- . && git checkout -q --detach main", cwd=wt)
-        for cand in sorted((wt / "_out").glob("*")):
+        for cand in sorted((wt / os.environ.get("SEED_DIR", "_out")).glob("*")):
             k = cand.name
             if k.isdigit():
                 k = str(int(k) + int(os.environ.get("SEED_OFFSET", "0")))
